@@ -123,6 +123,7 @@ type stepRig struct {
 	nilIO   bool             // no I/O device attached: port writes vanish, port reads give 0
 	memKind int              // 0: recording bus, 1: the bundled DumbMemory (64 KiB), 2: the bundled MapMemory
 	dumb    z80.DumbMemory   // reused between cases; only the cells a case needs are initialised
+	prev    z80.CPU          // the CPU value of the previous case (see run)
 }
 
 const (
@@ -173,10 +174,20 @@ func (r *stepRig) run(c *stepCase, code []uint8) stepOutcome {
 		o.skipped = true
 		return o
 	}
-	r.cpu = z80.CPU{Memory: r.ib, IO: r.ib}
+	// half of the cases start from a brand-new CPU value, the other half from a struct copy of the CPU
+	// that ran the previous case with every exported field overwritten: a Step depends on the public
+	// state only, so whatever else such a value carries along must not matter
+	if c.MemSeed>>6&1 == 0 {
+		r.cpu = z80.CPU{}
+	} else {
+		r.cpu = r.prev
+		r.cpu.RETNHandler, r.cpu.RETIHandler, r.cpu.Interrupt, r.cpu.BreakPoints = nil, nil, nil, nil
+	}
+	r.cpu.Memory, r.cpu.IO = r.ib, r.ib
 	if r.nilIO {
 		r.cpu.IO = nil
 	}
+	defer func() { r.prev = r.cpu }()
 	var mm z80.MapMemory
 	switch r.memKind {
 	case memDumb:
@@ -606,6 +617,7 @@ func init() {
 
 var stepKinds = map[string]map[string]bool{
 	"C01": {eng.KState: true, eng.KIff: true, eng.KFlags: true, eng.KMemImg: true, eng.KPortOut: true, eng.KInvalid: true},
+	"C04": {eng.KState: true, eng.KFlags: true, eng.KMemImg: true},
 	"C05": {eng.KAccess: true},
 	"C06": {eng.KIff: true, eng.KIntr: true},
 	"C14": {eng.KRefresh: true},
